@@ -666,6 +666,105 @@ def r01_caches(ctx, tom):
     r19a(ctx)
 
 
+def r01i(ctx):
+    """A position beyond the end is reached by padding, not by landing at the end.
+
+    `set_row`, `insert_row`, `Row.set_cell` and `Row.insert_cell` accept a position past the current extent: the grid model fills the gap
+    with empty rows / cells and puts the item at the position asked for.  The code does it with one repeated filler — `Row(repeated=D)`,
+    `Cell(repeated=D)`, `_repeated=D`, D = position − extent — appended before the item.  Rule: in every method of Table/Row that places
+    its item either through a vault function or through append_row/append_cell, each append of the item that can be reached with
+    D > 0 (signs of D derived from the tests on D or on `position ⋚ extent` in force) is preceded, in its own block, by the append of a
+    filler constructed with `repeated=` that same D.
+    """
+    from ..paths import structural_guards
+    repo = ctx.repo
+    ctx.rule("R01i", "placing an item beyond the current extent appends a filler of (position − extent) repetitions first", floor=4)
+    VAULT = {"set_item_in_vault", "insert_item_in_vault"}
+    n = 0
+    for cname, ext_attr, app in (("Table", "height", "append_row"), ("Row", "width", "append_cell")):
+        c = repo.cls(cname)
+        for name, fs in sorted(c.methods.items()):
+            f = fs[0]
+            calls_ = [x for x in walk_no_nested(f.node) if isinstance(x, ast.Call)]
+            if not any(call_name(x) in VAULT for x in calls_):
+                continue
+            params = [a.arg for a in f.all_params() if a.arg != "self"]
+            if not params:
+                continue
+            pos = params[0]
+            # D = pos - self.<extent>
+            dvars = {a.targets[0].id for a in walk_no_nested(f.node) if isinstance(a, ast.Assign) and isinstance(a.targets[0], ast.Name) and isinstance(a.value, ast.BinOp)
+                     and isinstance(a.value.op, ast.Sub) and isinstance(a.value.left, ast.Name) and a.value.left.id == pos
+                     and isinstance(a.value.right, ast.Attribute) and a.value.right.attr == ext_attr}
+            item_apps = [x for x in calls_ if call_name(x) == app and x.args and isinstance(x.args[0], ast.Name) and x.args[0].id in params]
+            if not item_apps:
+                continue
+
+            def signs(t, pol):
+                """signs of D = pos - extent compatible with test t having outcome pol; None when t says nothing about D"""
+                if isinstance(t, ast.UnaryOp) and isinstance(t.op, ast.Not):
+                    return signs(t.operand, not pol)
+                if not (isinstance(t, ast.Compare) and len(t.ops) == 1):
+                    return None
+                l, op, r = t.left, t.ops[0], t.comparators[0]
+                flip = False
+                if isinstance(l, ast.Name) and l.id in dvars and isinstance(r, ast.Constant) and r.value == 0:
+                    pass
+                elif isinstance(r, ast.Name) and r.id in dvars and isinstance(l, ast.Constant) and l.value == 0:
+                    flip = True
+                elif isinstance(l, ast.Name) and l.id == pos and isinstance(r, ast.Attribute) and r.attr == ext_attr:
+                    pass
+                elif isinstance(r, ast.Name) and r.id == pos and isinstance(l, ast.Attribute) and l.attr == ext_attr:
+                    flip = True
+                else:
+                    return None
+                table = {ast.Lt: {"-"}, ast.LtE: {"-", "0"}, ast.Gt: {"+"}, ast.GtE: {"+", "0"}, ast.Eq: {"0"}, ast.NotEq: {"-", "+"}}
+                sg = table.get(type(op))
+                if sg is None:
+                    return None
+                if flip:
+                    sg = {{"-": "+", "+": "-", "0": "0"}[x] for x in sg}
+                return sg if pol else {"-", "0", "+"} - sg
+
+            for x in item_apps:
+                allowed = {"-", "0", "+"}
+                for t, pol in structural_guards(x, stop=f.node):
+                    sg = signs(t, pol)
+                    if sg is not None:
+                        allowed &= sg
+                n += 1
+                ok = True
+                why = "not reachable with a position beyond the extent"
+                if "+" in allowed:
+                    # a filler appended before it in the same block
+                    blk = None
+                    for st in ast.walk(f.node):
+                        for fld in ("body", "orelse"):
+                            b = getattr(st, fld, None)
+                            if isinstance(b, list) and any(any(y is x for y in ast.walk(s_)) for s_ in b):
+                                blk = b
+                    filler = False
+                    for s_ in blk or []:
+                        if any(y is x for y in ast.walk(s_)):
+                            break
+                        for y in ast.walk(s_):
+                            if isinstance(y, ast.Call) and call_name(y) == app and y.args and isinstance(y.args[0], ast.Call):
+                                kws = {k.arg: k.value for k in y.args[0].keywords}
+                                rep = kws.get("repeated")
+                                if isinstance(rep, ast.Name) and rep.id in dvars or isinstance(rep, ast.BinOp) and isinstance(rep.op, ast.Sub) and isinstance(rep.left, ast.Name) and rep.left.id == pos:
+                                    filler = True
+                    ok = filler
+                    why = "filler of (position − extent) repetitions appended first" if ok else "reachable beyond the extent without a filler"
+                ctx.instance("R01i", f"{f.file}:{f.ident}", f"{norm(x, 40)}: {why} (signs of position − {ext_attr}: {''.join(sorted(allowed))})", ok=ok, nontrivial=True, line=x.lineno)
+                if not ok:
+                    ctx.report("R01i", f, x, norm(x, 60),
+                               f"{cname}.{name} appends the item on a path that is taken when the position lies beyond the current {ext_attr} (position − {ext_attr} > 0) without first appending "
+                               f"the (position − {ext_attr}) empty {'rows' if cname == 'Table' else 'cells'} in between: the item lands at the end instead of at the position asked for and every later "
+                               f"coordinate is shifted against the grid")
+    if n == 0:
+        raise AnalysisError("R01i: no positional placement with an append fallback found")
+
+
 def run(ctx):
     tom = run_tom(ctx.repo)
     r01a(ctx, tom)
@@ -675,6 +774,7 @@ def run(ctx):
     r01d(ctx)
     r01e(ctx)
     r01fgh(ctx)
+    r01i(ctx)
 
 
 from ..selftest import Seed, unparse_seed  # noqa: E402
@@ -683,6 +783,15 @@ _T = "src/odfdo/table.py"
 _R = "src/odfdo/row.py"
 _EC = "src/odfdo/element_cached.py"
 SEEDS = [
+    Seed("insert_row beyond the height is an append", "fault", _T,
+         "        diff = y - self.height\n        if diff < 0:\n            row_back = insert_item_in_vault(y, row, self, _xpath_row_idx, \"_tmap\")\n        elif diff == 0:\n            row_back = self.append_row(row, clone=clone)\n        else:\n            self.append_row(Row(repeated=diff), _repeated=diff, clone=False)\n            row_back = self.append_row(row, clone=clone)",
+         "        if y < self.height:\n            row_back = insert_item_in_vault(y, row, self, _xpath_row_idx, \"_tmap\")\n        else:\n            row_back = self.append_row(row, clone=clone)", "R01i"),
+    Seed("Row.set_cell pads only from two missing cells on", "fault", _R,
+         "        elif diff > 0:\n            self.append_cell(Cell(repeated=diff), _repeated=diff, clone=False)\n            cell_back = self.append_cell(cell, _repeated=repeated, clone=clone)",
+         "        elif diff == 1:\n            cell_back = self.append_cell(cell, _repeated=repeated, clone=clone)\n        elif diff > 1:\n            self.append_cell(Cell(repeated=diff), _repeated=diff, clone=False)\n            cell_back = self.append_cell(cell, _repeated=repeated, clone=clone)", "R01i"),
+    Seed("insert_row compares the position with the height directly", "neutral", _T,
+         "        diff = y - self.height\n        if diff < 0:\n            row_back = insert_item_in_vault(y, row, self, _xpath_row_idx, \"_tmap\")",
+         "        diff = y - self.height\n        if y < self.height:\n            row_back = insert_item_in_vault(y, row, self, _xpath_row_idx, \"_tmap\")"),
     Seed("insert_cell forgets row.repeated = None", "fault", _T,
          "        row = self._get_row2(y, clone=True)\n        row.y = y\n        row.repeated = None\n        cell_back = row.insert_cell(x, cell, clone=False)",
          "        row = self._get_row2(y, clone=True)\n        row.y = y\n        cell_back = row.insert_cell(x, cell, clone=False)", "R01a"),
